@@ -6,7 +6,11 @@ PLAN = dict(
          "revocation list; kinds and signer key types SM2/P-256/P-384/Ed25519/RSA cycle with the case number, template, subject key "
          "and signature algorithm come from a PRNG of (seed, workload, object number)) with the field-equality and signature laws, an independent SM2-SM3 "
          "verification, issuer-key substitution, issuer gating and the complete sweep: 4 substitutions (^0x01, ^0x80, 0x00, 0xFF; "
-         "identity mutants excluded) at every DER offset (a quarter of the offsets, selected by the object number, when the issuer key is P-384), every truncation and 2 trailing-data extensions. c15.chains: one case = one "
+         "identity mutants excluded) at every DER offset (a quarter of the offsets, selected by the object number, when the issuer key is P-384), every truncation and 2 trailing-data extensions; the law is by region: an alteration inside the tbs element or inside the content "
+         "octets of signatureValue (unused-bits octet included) must make parsing or verification fail without exception, elsewhere (outer "
+         "header, signatureAlgorithm, BIT STRING tag/length) parse+verify must imply unchanged TBS, signature and algorithm; in part 0 the object "
+         "is re-issued (next serial / CRL number / subject, fresh randomness; at most 128 times) until the low 3 bits of the last signature octet "
+         "are clear and the unused-bits octet additionally takes every value 1..7. c15.chains: one case = one "
          "generated PKI (a base chain of depth 0..3 changed by one of 21 recipes (cycle of 29: 8 slots mix 2-3 recipes), plus noise) built three times (SM2 keys, "
          "mixed key types, ECDSA twin through crypto/x509) and queried at 4+ explicit verification times x key-usage sets per target. "
          "Structured key material (SM2 and P-256 keys whose public X and/or Y has one or two leading zero bytes, or whose scalar has; fixed "
@@ -30,8 +34,8 @@ CLAIM = dict(
     text="Runtime monitoring of smx509: every created certificate, request, CFCA request and revocation list (5 signer key types x "
          "documented signature algorithms x generated templates) is parsed back and compared field by field with its template, its signature "
          "is verified by the library, by crypto/x509 where no SM2 key is involved and by an independent SM2-SM3 verifier; every single-byte "
-         "substitution (4 values), truncation and trailing-data extension of its DER is required to fail parsing or verification unless TBS, "
-         "signature and algorithm are unchanged; substituted and unauthorised issuer certificates are required to be refused. Every chain "
+         "substitution (4 values), truncation and trailing-data extension of its DER is required to fail parsing or verification - unconditionally inside the signed portion and the signatureValue content (incl. the "
+         "unused-bits octet, values 1..7), elsewhere unless TBS, signature and algorithm are unchanged; substituted and unauthorised issuer certificates are required to be refused. Every chain "
          "returned by Verify on generated PKIs is checked link by link against the generator's ground truth (signing edges, windows, CA/key "
          "usage, path length, name constraints, EKU nesting, unknown critical extensions), Verify must succeed whenever the ground truth has "
          "a valid chain, verdict and chain set must be independent of the key types and equal to crypto/x509's on an ECDSA twin. "
